@@ -41,6 +41,20 @@ PROPS = {
     "C14": sysprop(["C14"], ["adapters", "cancelable", "mixed"], 250, 4000, GEN_RULE),
     "C16": sysprop(["C16"], ["mixed", "local", "default"], 250, 4000, GEN_RULE),
     "C17": sysprop(["C17"], ["mixed", "local", "default"], 250, 4000, GEN_RULE),
+    "C19": {"coq": ["C19"], "streams": [S.jaeger_stream], "replay_sub": "jaeger",
+            "rule": "record batches: random records (boundary ids incl. top bit set, 0, max; random u64 times; UTF-8 names/keys/values "
+                    "with multi-byte, NUL and quote characters; 0-3 events with properties), byte-by-byte sweeps of one span across "
+                    "the datagram limit, mid-size spans whose sum straddles it, oversize spans at random positions, 0-400 small spans, "
+                    "13-17 element lists (long list header); non-trivial = at least one record; distinct by input text",
+            "trusted_base": ["harness/reporters (generator, loopback UDP capture with end marker)",
+                             "thrift_codec and the OS socket are trusted to the extent the byte comparison exercises them"],
+            "assumptions": ["Datadog and OpenTelemetry reporters: see DESIGN.md (C19 is decided for the Jaeger reporter byte for byte; "
+                            "the other two are compared field by field where the harness can capture them)"]},
+    "C20": {"coq": ["C20", "C20_consts"], "streams": [S.jaeger_stream], "replay_sub": "jaeger",
+            "rule": "same batches as C19; the comparison is on datagram boundaries (count and lengths); the oracle accepts any "
+                    "segmentation into datagrams < 8000 bytes that keeps every span fitting alone exactly once in order",
+            "trusted_base": ["harness/reporters (generator, loopback UDP capture with end marker)"],
+            "assumptions": ["sizes are those of the modelled Thrift encoding, compared byte for byte with the real one in C19"]},
     "C03": sysprop(["C03"], ["cancelable", "adapters", "exit"], 250, 4000, GEN_RULE),
     "C04": sysprop(["C04"], ["cancelable", "default", "overload"], 250, 4000, GEN_RULE),
     "C08": sysprop(["C08"], ["mixed", "exit", "cancelable", "default"], 250, 4000, GEN_RULE),
